@@ -20,8 +20,8 @@ OVERLAYS = [
      'edits': [(MOLECULE, "CIGAR.append(('N', start - prev_end - 1))", "CIGAR.append(('N', start - prev_end))", 0)]},
     {'name': 'reference position not advanced when the N is kept', 'kind': 'break', 'rules': ['C15-R2'],
      'edits': [(MOLECULE, "                    query_index_start += sum((len(s) for s in partial_sequence))\n\n                reference_position += amount\n", "                    query_index_start += sum((len(s) for s in partial_sequence))\n                    continue\n\n                reference_position += amount\n")]},
-    {'name': 'qualities not appended for an M block', 'kind': 'break', 'rules': ['C15-R2'],
-     'edits': [(MOLECULE, "                partial_sequence.append(predicted_sequence)\n                partial_phred.append(phred_scores)\n", "                partial_sequence.append(predicted_sequence)\n                if len(phred_scores):\n                    partial_phred.append(phred_scores)\n", 0)]},
+    {'name': 'qualities appended for the first M block only', 'kind': 'break', 'rules': ['C15-R2'],
+     'edits': [(MOLECULE, "                partial_sequence.append(predicted_sequence)\n                partial_phred.append(phred_scores)\n", "                partial_sequence.append(predicted_sequence)\n                if not partial_phred:\n                    partial_phred.append(phred_scores)\n", 0)]},
     {'name': 'sequence cleared but qualities kept at a large gap', 'kind': 'break', 'rules': ['C15-R2'],
      'edits': [(MOLECULE, "                    partial_sequence = []\n                    partial_phred = []\n                else:", "                    partial_sequence = []\n                else:")]},
     {'name': 'stretch fetched one base short', 'kind': 'break', 'rules': ['C15-R2'],
